@@ -6,6 +6,15 @@ import time
 
 from . import values as gv
 
+def _gmtime(secs):
+    """time.gmtime() computed with plain arithmetic (the C library's gmtime
+    counts leap seconds under a "right/" TZ setting)."""
+    import datetime as _dt
+    import time as _t
+    d = _dt.datetime(1970, 1, 1) + _dt.timedelta(seconds=int(secs))
+    return _t.struct_time(d.timetuple()[:8] + (0,))
+
+
 D = decimal.Decimal
 UTC = datetime.timezone.utc
 
@@ -55,8 +64,8 @@ DATETIMES = [
         hours=2))),
     dt(1970, 1, 1, 0, 30, 0, tz=datetime.timezone(datetime.timedelta(
         hours=-5))),
-    time.gmtime(0), time.gmtime(2**31), time.gmtime(2**32 - 1),
-    time.gmtime(2**32), time.struct_time((1969, 12, 31, 23, 59, 59, 2, 365,
+    _gmtime(0), _gmtime(2**31), _gmtime(2**32 - 1),
+    _gmtime(2**32), time.struct_time((1969, 12, 31, 23, 59, 59, 2, 365,
                                           0)),
     time.struct_time((1960, 1, 1, 0, 0, 0, 4, 1, -1)),
     time.struct_time((2001, 9, 9, 10, 46, 40, 6, 252, 0, 'JST', 32400)),
